@@ -92,7 +92,7 @@ def gofacts():
     with Lock("gofacts"):
         exe = os.path.join(BUILD, "gofacts")
         src = os.path.join(ROOT, "tools", "gofacts")
-        if (not os.path.exists(exe)) or os.path.getmtime(exe) < os.path.getmtime(os.path.join(src, "main.go")):
+        if (not os.path.exists(exe)) or os.path.getmtime(exe) < max(os.path.getmtime(os.path.join(src, f)) for f in os.listdir(src)):
             rc, out = sh(["go", "build", "-o", exe, "."], cwd=src, env=GOENV, timeout=300)
             if rc != 0:
                 raise RuntimeError("gofacts build failed:\n" + out)
@@ -1005,9 +1005,16 @@ def merge_parts(ctx, rule):
     ctx.coverage["samples"] = samples
 
 
-def handle_broken_proof(ctx):
+def handle_broken_proof(ctx, deep=None):
     """Called after the differential parts ran: if the proof build broke and no failing input
-    was found by the oracles, report the broken obligation itself."""
+    was found by the oracles, report the broken obligation itself. deep: an optional, more expensive search
+    (patience mode, thorough-size storms ...) run only in that situation, before giving up on finding an input."""
+    if ctx.proof_broken and deep is not None and not any(v["failing_input"] for v in ctx.violations):
+        log("proof obligation broken (%s): searching deeper for a failing input" % ctx.proof_broken[:200])
+        try:
+            deep()
+        except Exception as e:      # the search is best effort
+            ctx.notes.append("deep search failed: %r" % (e,))
     if ctx.proof_broken and not any(v["failing_input"] for v in ctx.violations):
         ctx.violation("proof-obligation", "a proof obligation of %s no longer checks: %s" % (ctx.pid, ctx.proof_broken),
                       {"theorem_or_obligation": ctx.proof_broken,
